@@ -128,6 +128,12 @@ def work_core(task):
             if rnd.random() < 0.6:
                 pnode = ("cat", [pnode, ("alt", [g.lit(), g.strlit(), ("elist",)][:rnd.randint(2, 3)])])
                 pst = pst + [G.U]
+            elif rnd.random() < 0.3:
+                # values of every type at positions 0, 1, 2, ...: blocks, strings, sequences taken out of a sequence
+                items = [("block", "", (), ("lit", k, "dec")) if rnd.random() < 0.6 else rnd.choice([g.lit(), g.strlit(), ("elist",)]) for k in range(rnd.randint(2, 4))]
+                pnode = ("cat", [pnode, ("cap", (), ("alt", items)), ("word", rnd.choice(["elem", "relem"]))])
+                pst = pst + [G.U]
+                ev.label("positions-on-prefix")
             enode, est = g.seq(list(pst), G.Scope(scope), 2, rnd.randint(1, 3))
             P, E = "(" + render(pnode) + ")", render(enode)
             eff = len(est) - len(pst)
